@@ -38,7 +38,9 @@ DecryptsViaSessionKey(sk, c, o) == ContainerAllowed(c, o) /\ SkFits(sk, c)
 (* ---------- signatures ---------- *)
 (* v6 keys only make / verify v6 signatures, and v6 signatures are only made by v6 keys *)
 SigKeyAligned(kv, sv) == (kv = 6) <=> (sv = 6)
-VerifyPaths == {"signature_verify", "detached", "inline", "cleartext", "certification", "subkey_binding", "direct_key"}
+VerifyPaths == {"signature_verify", "detached", "inline", "cleartext", "certification", "subkey_binding", "direct_key",
+                \* third-party certifications: the alignment is between the signature and the SIGNER; the certified key may be of either version
+                "third_party_certification_of_v4_key", "third_party_certification_of_v6_key"}
 (* one-pass header vs trailing signature: every compared field must agree *)
 OpsFields == {"typ", "hash", "pubalg"}
 OpsMatches(differing) == differing = {}
